@@ -10,7 +10,9 @@
    Clauses 5/6 (the content carried for every file text is attributed to) are NOT a theorem of
    the model without a further domain condition: `cached_law_contents_counterexample` below -
    a file name announced with two different contents (once by a cached subtree that maps no
-   chunk of it, class K7) is history-dependent.  chk_C13 has no `bindings_consistent` test. *)
+   chunk of it, class K7) is history-dependent.  chk_C13 has no `bindings_consistent` test.
+   With the domain condition "a file name determines its content" all six clauses are proved in
+   CompWarmLawsFull.v (C13_cached_warm). *)
 From RS Require Import Base.Prelude Base.Text Rope.RopeModel Codec.Vlq Codec.CodecSpec
   Stream.Types Stream.Leaves Stream.Concat Stream.Replace Stream.Combined Stream.Tree
   Api.ApiTree Sem.Attr Sem.HashEq Api.ApiHist Checkers.ChkTree Checkers.ChkHist
